@@ -252,6 +252,7 @@ pub fn items(tier: Tier) -> Vec<DxItem> {
                             let mut it = DxItem::new(rx_json(&p), make_rx(p), bound);
                             if bound > 0 {
                                 it.exec.long_yield = 3;
+                                it.exec.quiesce = true;
                             }
                             v.push(it);
                         }
